@@ -582,10 +582,14 @@ func (pe *PolicyEngine) updatePodOwnersToRepresentativePodMapIfRequired(deletedP
 }
 
 func (pe *PolicyEngine) deleteNetworkPolicy(np *netv1.NetworkPolicy) error {
-	if policiesMap, ok := pe.netpolsMap[np.Namespace]; ok {
+	netpolNamespace := np.ObjectMeta.Namespace
+	if netpolNamespace == "" { // a policy without namespace is stored in the default namespace (see insertNetworkPolicy)
+		netpolNamespace = metav1.NamespaceDefault
+	}
+	if policiesMap, ok := pe.netpolsMap[netpolNamespace]; ok {
 		delete(policiesMap, np.Name)
 		if len(policiesMap) == 0 {
-			delete(pe.netpolsMap, np.Namespace)
+			delete(pe.netpolsMap, netpolNamespace)
 		}
 	}
 
